@@ -26,8 +26,8 @@ def tbl(pkg, test, shards, engine, race=False, wall=900):
 
 # ---- SIM-only properties ----
 plan("C01", "exploration",
-     [sim("elections", 35), sim("random", 15), sim("churn", 10)],
-     [sim("elections", 700), sim("random", 400), sim("churn", 300), sim("fig8", 200), sim("elections", 60, race=True)],
+     [sim("elections", 25), sim("random", 10), sim("churn", 8), sim("notify", 10), sim("xfervote", 8)],
+     [sim("elections", 700), sim("random", 400), sim("churn", 300), sim("fig8", 200), sim("notify", 300), sim("xfervote", 200), sim("elections", 60, race=True)],
      {"leader-elected": 2}, "at least two leader elections",
      {"quick": {"leader-elected": 200}, "thorough": {"leader-elected": 5000}})
 plan("C02", "exploration",
@@ -61,8 +61,8 @@ plan("C12", "exploration",
      {"tail-one-leader": 1}, "the quiet tail ended with the bounded-progress readings taken",
      {"quick": {"tail-member-checked": 60}, "thorough": {"tail-member-checked": 2000}})
 plan("C13", "exploration",
-     [sim("lease", 45), sim("quiet", 8, wall=600)],
-     [sim("lease", 900), sim("quiet", 100, wall=900), sim("verify", 200)],
+     [sim("lease", 40), sim("elections", 8), sim("quiet", 8, wall=600)],
+     [sim("lease", 900), sim("quiet", 100, wall=900), sim("verify", 200), sim("elections", 300), sim("notify", 200)],
      {"lease-stepdown-measured": 1}, "a leader that lost its majority was timed until step-down (or the run was a long fault-free one)",
      {"quick": {"lease-stepdown-measured": 60, "quiet-run": 4}, "thorough": {"lease-stepdown-measured": 1500, "quiet-run": 60}})
 plan("C14", "exploration",
@@ -76,8 +76,8 @@ plan("C17", "exploration",
      {"call:apply": 10}, "client futures were observed (and, for the shutdown family, calls raced with and followed Shutdown)",
      {"quick": {"after-shutdown-call": 100}, "thorough": {"after-shutdown-call": 2000}})
 plan("C18", "exploration",
-     [sim("notify", 45), sim("random", 15)],
-     [sim("notify", 1000), sim("random", 300), sim("elections", 200)],
+     [sim("notify", 40), sim("random", 10), sim("elections", 10)],
+     [sim("notify", 1000), sim("random", 300), sim("elections", 400), sim("storefail", 100)],
      {"notify": 2}, "leadership notifications were delivered",
      {"quick": {"notify": 150, "leader-sample-checked": 100}, "thorough": {"notify": 4000}})
 plan("C20", "exploration",
@@ -88,8 +88,8 @@ plan("C20", "exploration",
 
 # ---- mixed engines ----
 plan("C04", "exploration",
-     [tbl("handler", "TestC04", 8, "HANDLER"), sim("fig8", 20), sim("random", 12), sim("storefail", 8)],
-     [tbl("handler", "TestC04", 16, "HANDLER", wall=3000), sim("fig8", 500), sim("random", 500), sim("elections", 200), sim("storefail", 200)],
+     [tbl("handler", "TestC04", 8, "HANDLER"), sim("fig8", 18), sim("random", 10), sim("storefail", 8), sim("snapterm", 8)],
+     [tbl("handler", "TestC04", 16, "HANDLER", wall=3000), sim("fig8", 500), sim("random", 500), sim("elections", 200), sim("storefail", 200), sim("snapterm", 150), sim("lagging", 200)],
      None, None,
      {"quick": {"ae-success-with-entries": 1000, "truncation": 20}, "thorough": {"truncation": 1000}},
      rule="HANDLER: every (follower log, snapshot boundary, current term) x (request term, previous-entry position, batch, conflict position, leader commit) within the bounds "
@@ -104,11 +104,11 @@ plan("C05", "exploration",
           "match / setConfiguration calls, plus seeded random sequences (<= 30 calls, 7 servers), each compared call by call with a brute-force reference; distinct = (initial configuration, startIndex) classes and sampled random cases. "
           "SIM: " + (SIM_RULE % "at least 5 leader commit advances were checked against the voters' reconstructed disks"))
 plan("C06", "fault_enumeration",
-     [tbl("handler", "TestC06", 8, "HANDLER"), sim("elections", 25), sim("crashpoints", 10)],
-     [tbl("handler", "TestC06", 16, "HANDLER", wall=3000), sim("elections", 600), sim("crashpoints", 300), sim("random", 300)],
+     [tbl("handler", "TestC06", 8, "HANDLER"), sim("elections", 22), sim("crashpoints", 10), sim("xfervote", 6)],
+     [tbl("handler", "TestC06", 16, "HANDLER", wall=3000), sim("elections", 600), sim("crashpoints", 300), sim("random", 300), sim("xfervote", 150)],
      None, None,
-     {"quick": {"vote-granted": 300, "fault-before": 500}, "thorough": {"fault-before": 10000}},
-     rule="HANDLER: persisted state (term, vote record incl. term-without-candidate, log tail, configuration) x sequences of 2-3 RequestVote / RequestPreVote / heartbeat messages x "
+     {"quick": {"vote-granted": 300, "fault-before": 500, "own-candidacy-won": 100}, "thorough": {"fault-before": 10000, "own-candidacy-won": 2000}},
+     rule="HANDLER: persisted state (term, vote record incl. term-without-candidate, log tail, configuration) x sequences of 2-3 RequestVote / RequestPreVote / heartbeat / TimeoutNow messages (TimeoutNow makes the server campaign itself; two fake peers hold its requests and grant them at the end, so a win after a grant to a competitor is seen) x "
           "{no fault, crash before, crash after, error} at EVERY stable-store write the sequence performs (measured by a dry run), restart and continue; quick samples base sequences, thorough 30000 of them; "
           "non-trivial = a vote was granted. SIM: " + (SIM_RULE % "votes were granted in live elections with crashes/errors armed on the vote and term writes"))
 plan("C07", "exploration",
@@ -119,8 +119,8 @@ plan("C07", "exploration",
      rule="TABLE: every configuration over 3 (quick) / 4 (thorough) server ids x every command x every target (incl. a new id) x address in {own, another server's, new, empty} x prevIndex in {0, current, stale-, stale+}, "
           "compared with the stated rules; non-trivial = the voter set changed by one. SIM: " + (SIM_RULE % "a configuration entry was appended / stored"))
 plan("C11", "fault_enumeration",
-     [tbl("table", "TestC11", 1, "TABLE"), sim("lagging", 22), sim("crashpoints", 20), sim("snapcfg", 8), sim("random", 10)],
-     [tbl("table", "TestC11", 1, "TABLE"), sim("lagging", 500), sim("crashpoints", 500), sim("snapcfg", 200), sim("random", 300), sim("restore", 100)],
+     [tbl("table", "TestC11", 1, "TABLE"), sim("lagging", 20), sim("crashpoints", 18), sim("snapcfg", 8), sim("random", 8), sim("snapterm", 6)],
+     [tbl("table", "TestC11", 1, "TABLE"), sim("lagging", 500), sim("crashpoints", 500), sim("snapcfg", 200), sim("random", 300), sim("restore", 100), sim("snapterm", 100)],
      None, None,
      {"quick": {"op:snap.close": 100, "compaction": 50, "snapshot-fidelity-checked": 100}, "thorough": {"op:snap.close": 3000}},
      rule="TABLE: compactLogsWithTrailing for every (first, last, snapshot index, last log index, TrailingLogs) with values 0..8 (exhaustive); "
